@@ -17,7 +17,7 @@ theorem exec_snoc (cfg : Cfg) (h : List Op) (op : Op) : exec cfg (h ++ [op]) = s
 theorem step_outs (cfg : Cfg) (s : St) (op : Op) :
     (step cfg s op).outs = s.outs ∨ ∃ c, op = .env (.out c) ∧ (step cfg s op).outs = c :: s.outs := by
   obtain ⟨clock, prodDone, finTime, suicide, armed, consume, retries, cancel, kc, hasProc, procKilled,
-    lastLaunched, aged, hasOutput, lastOutput, outs, execLog, pc, cause, pollsFin, books⟩ := s
+    lastLaunched, aged, hasOutput, lastOutput, outs, execLog, pc, cause, pollsFin, books, started⟩ := s
   rcases op with e | o
   · cases e <;> simp only [step, envStep, doKill] <;> (repeat' split) <;> simp
   · cases pc <;> simp only [step, engStep, post, doKill] <;> (repeat' split) <;> simp
@@ -44,7 +44,7 @@ flag set or `canConsume` true at that moment -/
 theorem launch_step (cfg : Cfg) (s : St) (op : Op) (hl : (step cfg s op).execLog ≠ s.execLog) :
     (s.consume || canConsume cfg s.outs) = true := by
   obtain ⟨clock, prodDone, finTime, suicide, armed, consume, retries, cancel, kc, hasProc, procKilled,
-    lastLaunched, aged, hasOutput, lastOutput, outs, execLog, pc, cause, pollsFin, books⟩ := s
+    lastLaunched, aged, hasOutput, lastOutput, outs, execLog, pc, cause, pollsFin, books, started⟩ := s
   rcases op with e | o
   · exfalso; revert hl
     cases e <;> simp only [step, envStep, doKill] <;> (repeat' split) <;> simp
@@ -58,7 +58,7 @@ theorem invE_init (cfg : Cfg) : InvE (init cfg) := by simp [InvE, init]
 
 theorem invE_step (cfg : Cfg) (s : St) (op : Op) (h : InvE s) : InvE (step cfg s op) := by
   obtain ⟨clock, prodDone, finTime, suicide, armed, consume, retries, cancel, kc, hasProc, procKilled,
-    lastLaunched, aged, hasOutput, lastOutput, outs, execLog, pc, cause, pollsFin, books⟩ := s
+    lastLaunched, aged, hasOutput, lastOutput, outs, execLog, pc, cause, pollsFin, books, started⟩ := s
   simp only [InvE] at h ⊢
   rcases op with e | o
   · cases e <;> simp only [step, envStep, doKill] <;> (repeat' split) <;> grind
